@@ -228,6 +228,95 @@ theorem C15_sys_held (C : CodecNew) (ops : List SysOp) (id : Nat) :
     · exact hm
     · simp only [hm, if_false] at hb; omega
 
+/-! ### the discipline is a property of each buffer's own events
+
+This is what lifts the operation-level schedules above to real concurrency: operations of different
+sessions run concurrently, so their pool events interleave more finely than whole operations; but a
+reordering that keeps the order of every single buffer's events keeps the discipline. -/
+
+/-- the buffer an event is about -/
+def evId : Ev → Nat
+  | .get id => id
+  | .put id => id
+  | .use id => id
+
+/-- the events of one buffer, in order -/
+def proj (id : Nat) (l : List Ev) : List Ev := l.filter (fun e => evId e == id)
+
+theorem C15_aux_holds_proj (h : List Ev) (id : Nat) : holds (proj id h) id = holds h id := by
+  induction h with
+  | nil => rfl
+  | cons e h ih =>
+    unfold proj at ih ⊢
+    rw [List.filter_cons]
+    cases e with
+    | get j =>
+      by_cases hj : j = id
+      · subst hj; simp [evId, holds]
+      · have : (evId (.get j) == id) = false := by simp [evId, hj]
+        rw [this]; simp only [Bool.false_eq_true, if_false, holds, hj]; exact ih
+    | put j =>
+      by_cases hj : j = id
+      · subst hj; simp [evId, holds]
+      · have : (evId (.put j) == id) = false := by simp [evId, hj]
+        rw [this]; simp only [Bool.false_eq_true, if_false, holds, hj]; exact ih
+    | use j =>
+      by_cases hj : j = id
+      · subst hj; simp only [evId, beq_self_eq_true, if_true, holds]; exact ih
+      · have : (evId (.use j) == id) = false := by simp [evId, hj]
+        rw [this]; simp only [Bool.false_eq_true, if_false, holds]; exact ih
+
+theorem C15_aux_okAt_proj (h : List Ev) (e : Ev) : okAt (proj (evId e) h) e = okAt h e := by
+  cases e <;> simp only [okAt, evId, C15_aux_holds_proj]
+
+/-- **Per-buffer characterisation**: a log is disciplined iff, for every buffer, the sub-log of that
+buffer's own events is. -/
+theorem C15_disciplined_per_buffer (l : List Ev) : Disciplined l ↔ ∀ id, Disciplined (proj id l) := by
+  constructor
+  · intro hd id p e r hl
+    unfold proj at hl
+    obtain ⟨l₁, l₂, h1, h2, h3⟩ := List.filter_eq_append_iff.1 hl
+    obtain ⟨m₁, m₂, h4, h5, h6, _⟩ := List.filter_eq_cons_iff.1 h3
+    have hid : evId e = id := by simpa using h6
+    have hok := hd (l₁ ++ m₁) e m₂ (by rw [h1, h4, List.append_assoc])
+    rw [← C15_aux_okAt_proj, hid] at hok
+    have hp : proj id (l₁ ++ m₁).reverse = p.reverse := by
+      unfold proj
+      rw [List.filter_reverse, List.filter_append, h2]
+      have : List.filter (fun e => evId e == id) m₁ = [] := List.filter_eq_nil_iff.2 h5
+      rw [this, List.append_nil]
+    rw [hp] at hok
+    exact hok
+  · intro hd p e r hl
+    have h1 : proj (evId e) l = proj (evId e) p ++ e :: proj (evId e) r := by
+      unfold proj
+      rw [hl, List.filter_append, List.filter_cons]
+      simp
+    have hok := hd (evId e) _ e _ h1
+    have hp : (proj (evId e) p).reverse = proj (evId e) p.reverse := by
+      unfold proj; rw [List.filter_reverse]
+    rw [hp, C15_aux_okAt_proj] at hok
+    exact hok
+
+/-- **Finer interleavings**: any reordering of a disciplined log that keeps the order of each
+buffer's own events is disciplined.  With `C15_sys_disciplined`: however the pool events of
+concurrently running operations of different sessions interleave, as long as every buffer sees its
+events in the order of some operation-level schedule, the process's log is disciplined. -/
+theorem C15_disciplined_reorder {l l' : List Ev} (h : ∀ id, proj id l' = proj id l) (hd : Disciplined l) :
+    Disciplined l' := by
+  rw [C15_disciplined_per_buffer] at hd ⊢
+  intro id; rw [h id]; exact hd id
+
+example : Disciplined [.get 0, .get 1, .use 1, .use 0, .put 0, .put 1] :=
+  C15_disciplined_reorder (l := [.get 0, .use 0, .put 0, .get 1, .use 1, .put 1])
+    (fun id => by
+      by_cases h0 : id = 0
+      · subst h0; decide
+      · by_cases h1 : id = 1
+        · subst h1; decide
+        · simp [proj, evId, Ne.symm h0, Ne.symm h1])
+    ((C15_sanitizer_sound _).mp (by decide))
+
 /-! ### non-vacuity: two cores and a decoder take turns -/
 
 def exSys : List SysOp :=
